@@ -1,6 +1,7 @@
 (* Extract.v - monolithic extraction of the executable models and specs.
    ExtrOcamlBasic only: bool, option, list, prod, unit, sumbool map to
    OCaml's; N, Z, positive and nat stay the extracted inductives. *)
+Require Import PV.SummaryProofs.
 Require Import PV.Base PV.Dec PV.Dewey PV.DeweySpec PV.Pattern PV.AltSpec PV.Summary PV.Distinfo PV.DigestM PV.Plist PV.PkgPathM PV.ScanIndex PV.Metadata.
 Require Extraction.
 Require Import ExtrOcamlBasic.
@@ -13,6 +14,7 @@ Extraction "model.ml"
   pattern_new pm pm_w glob_new glob_matches quick best2 best2_w fuel_for pkgname_new string_step
   print exp spec_match
   all_vars kind_of empty apply_op run get print_entry parse_entry is_completed sum_pkgbase sum_pkgversion
+  is_canonical
   stream_write stream_init print_stream utf8_valid lines
   all_algs alg_name alg_parse alg_parse_bytes filter_patch classify parse_dline di_from_bytes di_as_bytes di_insert di_empty
   hash_file_pre hash_patch_pre
